@@ -83,6 +83,7 @@ type vMSvcRun struct {
 	// lease without a manifest in time makes its watchdog close the bid
 	Watchdog      int `json:"watchdog_timeout_us,omitempty"`
 	WatchdogFired int `json:"watchdog_close_bids,omitempty"`
+	QueriesOpen   int `json:"status_queries_open_when_judged,omitempty"`
 }
 
 type vMSvcEnd struct{}
@@ -138,6 +139,12 @@ func vManifestServiceStage(res *vs.Result) {
 			}
 		}
 		res.Count("service_announcements", len(run.Anns))
+		for _, e := range run.Events {
+			if e == "Q" {
+				res.Count("service_status_and_activity_queries", 1)
+			}
+		}
+		res.Count("service_status_queries_still_open_when_judged", run.QueriesOpen)
 		if run.Watchdog > 0 {
 			res.Count("service_runs_with_manifest_timeout", 1)
 			res.Count("service_watchdog_closed_a_bid", run.WatchdogFired)
@@ -364,6 +371,7 @@ func vRunManifestService(kits []*vManifestKit, seed int64, idx int) (*vMSvcRun, 
 		return run, nil
 	}
 
+	var sideQ int32
 	var subWG sync.WaitGroup
 	submit := func(di, mi int, probe bool) {
 		d := deps[di]
@@ -400,7 +408,22 @@ func vRunManifestService(kits []*vManifestKit, seed int64, idx int) (*vMSvcRun, 
 	for j := 0; j < n; j++ {
 		di := r.Intn(len(deps))
 		d := deps[di]
-		switch r.Pick([]int{5, 2, 3, 3, 8}) {
+		switch r.Pick([]int{5, 2, 3, 3, 8, 2}) {
+		case 5: // read-only queries are inputs of the same loop
+			ev("Q")
+			atomic.AddInt32(&sideQ, 1)
+			go func(id dtypes.DeploymentID, st bool) {
+				qctx, qcancel := context.WithTimeout(context.Background(), vMTimeout)
+				defer qcancel()
+				if st {
+					_, _ = svcI.Status(qctx)
+				} else if ac, ok := svcI.(interface {
+					IsActive(context.Context, dtypes.DeploymentID) (bool, error)
+				}); ok {
+					_, _ = ac.IsActive(qctx, id)
+				}
+				atomic.AddInt32(&sideQ, -1)
+			}(d.k.did, r.Bool())
 		case 0: // lease won
 			atomic.StoreInt32(&d.leasePublished, 1)
 			nl := atomic.AddInt32(&d.nLease, 1)
@@ -498,6 +521,7 @@ func vRunManifestService(kits []*vManifestKit, seed int64, idx int) (*vMSvcRun, 
 	mu.Lock()
 	defer mu.Unlock()
 	run.WatchdogFired = int(atomic.LoadInt32(&wdFired))
+	run.QueriesOpen = int(atomic.LoadInt32(&sideQ))
 	trig := func(di int) string {
 		var parts []string
 		seen := map[string]bool{}
